@@ -401,7 +401,10 @@ def violation(ctx, kind, payload, no_failing_input=False):
     with open(path, "w") as f:
         json.dump(payload, f, indent=1, sort_keys=True)
     ctx.violations.append((path, no_failing_input))
-    print("VIOLATION property=%s replay=%s%s" % (ctx.pid, path, " no-failing-input-found" if no_failing_input else ""))
+    try:
+        print("VIOLATION property=%s replay=%s%s" % (ctx.pid, path, " no-failing-input-found" if no_failing_input else ""), flush=True)
+    except BrokenPipeError:      # the reader of our stdout went away: the exit status still says it
+        pass
     sys.stdout.flush()
 
 
